@@ -74,6 +74,28 @@ def table_values(facts, ref):
     return None
 
 
+def toks_in(v, depth=0):
+    """Single-token provenances nested anywhere in a value."""
+    out = []
+    if depth > 8:
+        return out
+    if isinstance(v, dict):
+        for x in v.values():
+            out += toks_in(x, depth + 1)
+    elif isinstance(v, (list, tuple)):
+        if v and isinstance(v[0], str):
+            if v[0] in ('tok', 'tokend'):
+                return [v]
+            if v[0] in ('closure', 'obj', 'expr', 'const'):
+                return out
+            for x in v[1:]:
+                out += toks_in(x, depth + 1)
+        else:
+            for x in v:
+                out += toks_in(x, depth + 1)
+    return out
+
+
 def admits(facts, path, head):
     """Can a line whose lower-cased first token is `head` take this path?  Decided from the path's facts about the head (tests
     of earlier arms that came out negative included, so first-match-wins dispatch is honoured)."""
@@ -97,6 +119,9 @@ class Path:
         self.events = []
         self.head_facts = []   # ('eq', value, polarity, node) / ('in', NAME or frozenset, polarity, node) about the head token
         self.tok_facts = []    # ('tok_eq', provenance, const, polarity) / ('is_int', provenance, polarity)
+        self.tok_tests = []    # (token provenance, kind, detail, polarity, via): every test on the path that looks at a token;
+                               # kind 'eq' (detail = constant) | 'in' (frozenset) | 'in-table' (NAME) | 'other' (text);
+                               # via 'raw' | 'lower' | 'lookup' (lookup_register(token)) | 'int'
         self.flow = None       # None | 'break' | 'continue'
         self.ctor = None       # (value, node): the constructor call value most recently built by a `return`
         self.objs = {}         # object id -> {attribute: provenance} of helper-class instances built on this path
@@ -111,6 +136,7 @@ class Path:
         p.events = list(self.events)
         p.head_facts = list(self.head_facts)
         p.tok_facts = list(self.tok_facts)
+        p.tok_tests = list(self.tok_tests)
         p.flow = self.flow
         p.ctor = self.ctor
         p.objs = {k: dict(v) for k, v in self.objs.items()}
@@ -978,6 +1004,8 @@ class TokenFlow:
                     fp.conds.append((text, False, target.test))
                     self._learn(target.test, tp, True)
                     self._learn(target.test, fp, False)
+                    self._note_test(target.test, tp, True)
+                    self._note_test(target.test, fp, False)
                     work.append((fp, _replace(n, target, target.orelse)))
                     work.append((tp, _replace(n, target, target.body)))
                 else:
@@ -1015,6 +1043,64 @@ class TokenFlow:
                 break
         return live + parked
 
+    @staticmethod
+    def tok_base(v):
+        """(token provenance, via) when the value is a token seen raw, lower-cased, through lookup_register or int()."""
+        via = 'raw'
+        for _ in range(4):
+            if v[0] in ('tok', 'tokend'):
+                return v, via
+            if v[0] == 'lower':
+                v, via = v[1], ('lower' if via == 'raw' else via)
+            elif v[0] == 'int':
+                v, via = v[1], 'int'
+            elif v[0] == 'call' and v[1] == 'lookup_register' and v[2]:
+                v, via = v[2][0], 'lookup'
+            else:
+                return None
+        return None
+
+    def _note_test(self, test, path, polarity):
+        """Record which tokens a test looks at, and how (see Path.tok_tests)."""
+        while isinstance(test, ast.UnaryOp) and isinstance(test.op, ast.Not):
+            test, polarity = test.operand, not polarity
+        if isinstance(test, ast.Compare) and len(test.ops) == 1:
+            op = test.ops[0]
+            lv, rv = self.ev(test.left, path), self.ev(test.comparators[0], path)
+            b = self.tok_base(lv)
+            if b is None and isinstance(op, (ast.Eq, ast.NotEq)) and self.tok_base(rv) is not None:
+                lv, rv = rv, lv
+                b = self.tok_base(lv)
+            if b is not None:
+                pol = polarity if isinstance(op, (ast.Eq, ast.In, ast.Is)) else not polarity
+                if isinstance(op, (ast.Eq, ast.NotEq)) and rv[0] == 'const':
+                    path.tok_tests.append((b[0], 'eq', rv[1], pol, b[1]))
+                    return
+                if isinstance(op, (ast.In, ast.NotIn)):
+                    if rv[0] == 'ref':
+                        path.tok_tests.append((b[0], 'in-table', rv[1], pol, b[1]))
+                        return
+                    vals = self.table_values(rv) if rv[0] in ('const', 'dictv') else (
+                        {x[1] for x in rv[1]} if rv[0] == 'list' and all(x[0] == 'const' for x in rv[1]) else None)
+                    if vals is not None:
+                        path.tok_tests.append((b[0], 'in', frozenset(vals), pol, b[1]))
+                        return
+        self._note_use(test, path, polarity, unparse(test))
+
+    def _note_use(self, expr, path, polarity, text):
+        """Tokens that flow into an expression this evaluator does not interpret (an opaque test, a call statement)."""
+        seen = set()
+        for n in ast.walk(expr):
+            if isinstance(n, (ast.Name, ast.Subscript, ast.Call, ast.Attribute)):
+                try:
+                    v = self.ev(n, path)
+                except AnalysisError:
+                    continue
+                for t in toks_in(v):
+                    if t not in seen:
+                        seen.add(t)
+                        path.tok_tests.append((t, 'other', text, polarity, 'raw'))
+
     def _fork(self, test, path, outcomes, then_body, else_body):
         if isinstance(test, ast.BoolOp) and len(test.values) >= 2:
             # short-circuit evaluation as nested tests, so that each operand teaches its own fact:
@@ -1038,6 +1124,8 @@ class TokenFlow:
                 fp.conds.append((text, False, test))
                 self._learn(t, tp, True)
                 self._learn(t, fp, False)
+                self._note_test(t, tp, True)
+                self._note_test(t, fp, False)
                 out += self._block(then_body, tp, outcomes)
                 out += self._block(else_body, fp, outcomes) if else_body else [fp]
             elif d:
@@ -1107,7 +1195,12 @@ class TokenFlow:
         if isinstance(st, ast.Expr):
             if isinstance(st.value, ast.Constant):
                 return [path]
-            return [p for p, _ in self._hoist(st.value, path, outcomes)]
+            out = []
+            for p, value in self._hoist(st.value, path, outcomes):
+                if isinstance(value, ast.Call):
+                    self._note_use(value, p, True, unparse(st.value))       # tokens handed to a call that is not walked
+                out.append(p)
+            return out
         if isinstance(st, (ast.Pass, ast.Assert, ast.Import, ast.ImportFrom, ast.Global, ast.Nonlocal)):
             return [path]
         if isinstance(st, ast.AugAssign):
